@@ -71,6 +71,8 @@ def check(run, prog, tier):
                       "eigenvector matrix is indexed [site, exciton]", minimum=2)
     rule_I(run, prog, "C12-I", "for uncoupled molecules the widths are then permuted among the molecules and the response is no "
                                "longer the sum of the molecules' responses")
+    run.rule("C12-L", "the squared transition dipoles that select the pathways are scalar products (rotation invariant)", minimum=2)
+    rule_L(run, prog)
     run.rule("C12-K", "the widths and dephasing rates of a pathway fall back to the calculator's own exactly when they are not "
                       "given: each selection tests the entry it uses", minimum=4)
     rule_K(run, prog)
@@ -118,6 +120,59 @@ def rule_I(run, prog, rid, what):
                                sample={"statement": norm(st)[:80]})
     if n_st < 2:
         raise AnalysisError("diagonalize: only %d width accumulations over sites recognised (2 confirmed)" % n_st)
+
+
+def rule_L(run, prog):
+    """'Unchanged by a common rotation of all dipoles': the pathway generators decide which pathways exist by comparing
+    self.D2[a, b], the squared length of the transition dipole between two states, with a tolerance.  |d|^2 = d.d is
+    invariant; anything else made of the Cartesian components - (dx + dy + dz)^2 from an einsum whose two operands carry
+    different letters for the Cartesian axis - is not, and vanishes for d = (0.9, -0.9, 0): the pathways through that
+    transition are dropped for one orientation of the aggregate and kept for another.  Every value stored into the table
+    of squared dipoles (dd2[...] / self.D2) in the aggregate is a scalar product of one and the same slice of self.DD:
+    numpy.dot(x, x), an einsum with the same letter for the last axis of both operands and not in the output, or a sum
+    of squares over the last axis."""
+    rid = "C12-L"
+    n = 0
+    cls = prog.cls("quantarhei.builders.aggregate_base.AggregateBase")
+    for nme, f in cls.methods.items():
+        for st in walk_no_nested(f.node):
+            if not isinstance(st, ast.Assign):
+                continue
+            b_ = st.targets[0]
+            while isinstance(b_, ast.Subscript):
+                b_ = b_.value
+            if norm(b_) not in ("dd2", "self.D2") or not any(isinstance(x, ast.Attribute) and x.attr == "DD" for x in ast.walk(st.value)):
+                continue
+            n += 1
+            prog.consulted.add(f.relpath)
+            v = st.value
+            ok, why = False, "is not recognised as a scalar product"
+            if isinstance(v, ast.Call) and (call_name(v) or "").split(".")[-1] in ("dot", "vdot", "inner") and len(v.args) == 2:
+                ok = norm(v.args[0]) == norm(v.args[1])
+                why = "multiplies two different vectors"
+            elif isinstance(v, ast.Call) and (call_name(v) or "").split(".")[-1] == "einsum" and v.args \
+                    and isinstance(v.args[0], ast.Constant) and isinstance(v.args[0].value, str):
+                spec = v.args[0].value.replace(" ", "")
+                ins, _, out_ = spec.partition("->")
+                ops = ins.split(",")
+                if len(ops) == 2 and len(v.args) == 3 and norm(v.args[1]) == norm(v.args[2]):
+                    ok = ops[0] == ops[1] and ops[0][-1] not in out_ and all(c in out_ for c in ops[0][:-1])
+                    why = "contracts the Cartesian axis of the two operands under different letters (%s): a product of the sums of " \
+                          "the components, not the sum of their products" % spec
+            elif isinstance(v, ast.Call) and (call_name(v) or "").split(".")[-1] == "sum" and v.args:
+                inner = v.args[0]
+                sq = (isinstance(inner, ast.BinOp) and ((isinstance(inner.op, ast.Pow) and isinstance(inner.right, ast.Constant) and inner.right.value == 2)
+                                                        or (isinstance(inner.op, ast.Mult) and norm(inner.left) == norm(inner.right))))
+                axis = [k for k in v.keywords if k.arg == "axis"]
+                ok = sq and (bool(axis) and norm(axis[0].value) in ("-1", "2") or not isinstance(st.targets[0], ast.Name))
+                why = "is not a sum of squares over the Cartesian axis"
+            run.obligation(rid, f.short, ok, key="squared-dipole-is-a-scalar-product:" + norm(st.targets[0])[:20],
+                           message="%s fills the table of squared transition dipoles with `%s`, which %s: the quantity is not "
+                                   "invariant under rotations (it vanishes for d = (0.9, -0.9, 0)), and the pathway selection that "
+                                   "compares it with a tolerance depends on the orientation of the aggregate"
+                                   % (f.short, norm(v)[:70], why), loc=f.loc(st), sample={"value": norm(v)[:70]})
+    if n < 2:
+        raise AnalysisError("C12-L: only %d places fill the table of squared dipoles (2 confirmed)" % n)
 
 
 def rule_K(run, prog):
